@@ -20,6 +20,7 @@ def dispatch (line : String) : String :=
   match line.trimAscii.toString.splitOn " " with
   | "attempts" :: rest => (handleAttempts rest).getD "bad-op"
   | "junit" :: rest => (handleJunit rest).getD "bad-op"
+  | "xmltext" :: rest => (handleXmlText rest).getD "bad-op"
   | "shjoin" :: rest => (handleShJoin rest).getD "bad-op"
   | "shsplit" :: rest => (handleShSplit rest).getD "bad-op"
   | "cmd" :: rest => (handleCmd rest).getD "bad-op"
